@@ -14,6 +14,12 @@ use std::slice;
 pub struct SampledChance {
     index: WeightedAliasIndex<f64>,
     cached: usize,
+    #[cfg(cfr_verif)]
+    verif_id: usize,
+    #[cfg(cfr_verif)]
+    verif_pass: u64,
+    #[cfg(cfr_verif)]
+    verif_probs: Vec<f64>,
 }
 
 impl SampledChance {
@@ -22,6 +28,12 @@ impl SampledChance {
         SampledChance {
             index: WeightedAliasIndex::new(probs.to_vec()).unwrap(),
             cached: 0,
+            #[cfg(cfr_verif)]
+            verif_id: crate::verif::next_id(crate::verif::Kind::Chance),
+            #[cfg(cfr_verif)]
+            verif_pass: 0,
+            #[cfg(cfr_verif)]
+            verif_probs: probs.to_vec(),
         }
     }
 
@@ -30,7 +42,26 @@ impl SampledChance {
     /// This will return the same value on successive calls until reset is called
     pub fn sample(&mut self) -> usize {
         if self.cached == 0 {
+            #[cfg(cfr_verif)]
+            if let Some(res) = crate::verif::draw(
+                crate::verif::Kind::Chance,
+                self.verif_id,
+                self.verif_pass,
+                &self.verif_probs,
+            ) {
+                self.cached = res + 1;
+                return res;
+            }
             let res = self.index.sample(&mut thread_rng());
+            #[cfg(cfr_verif)]
+            crate::verif::record(
+                crate::verif::Kind::Chance,
+                self.verif_id,
+                self.verif_pass,
+                &self.verif_probs,
+                res,
+                false,
+            );
             self.cached = res + 1;
             res
         } else {
@@ -40,6 +71,10 @@ impl SampledChance {
 
     /// Reset the infoset allowing different samples
     pub fn reset(&mut self) {
+        #[cfg(cfr_verif)]
+        {
+            self.verif_pass += 1;
+        }
         self.cached = 0;
     }
 }
